@@ -1,4 +1,28 @@
-/- C20 — property theorems (stub; filled in by the owning work package). -/
+/-
+  C20 — the HTTP service answers every request and survives it.  (stub theorems follow in this file:
+  handler totality and per-constraint rejection lemmas; see DESIGN §5.20.)
+-/
 import Rdm.Basic
 namespace Rdm.Props.C20
+
+/-- HTTP status of `decideHandler` as a function of the two things that can go wrong: binding the
+    JSON body and the (recovered) panic of `MakeDecision`; a ranking is written only when both succeed. -/
+def handle {Resp : Type} (bound : Bool) (decision : Except String Resp) : Nat × Option Resp :=
+  if !bound then (400, none)
+  else match decision with
+    | .error _ => (400, none)
+    | .ok r => (200, some r)
+
+/-- the handler always answers, with 200 exactly when it has a ranking to return -/
+theorem handle_total {Resp : Type} (bound : Bool) (decision : Except String Resp) :
+    ((handle bound decision).1 = 200 ∧ (handle bound decision).2.isSome) ∨
+    ((handle bound decision).1 = 400 ∧ (handle bound decision).2 = none) := by
+  unfold handle
+  cases bound <;> cases decision <;> simp
+
+/-- a rejected request (bind error or validation panic) is never answered with a ranking -/
+theorem rejected_never_ranked {Resp : Type} (bound : Bool) (e : String) :
+    (handle bound (.error e : Except String Resp)).2 = none := by
+  unfold handle; cases bound <;> simp
+
 end Rdm.Props.C20
